@@ -37,6 +37,12 @@ def cases(draw, tier):
         cfg["IDX"] = {"class": "IndexMarket", "tickSize": 1.0, "marketPrice": 100.0, "markets": names[:2]}
         cfg["simulation"]["markets"].append("IDX")
         allm.append("IDX")
+        if draw(st.integers(0, 2)) == 0:
+            # an index of indices: ticks after the index it contains, which ticks after the spot markets
+            cfg["IDX"]["outstandingShares"] = 50
+            cfg["IDX2"] = {"class": "IndexMarket", "tickSize": 1.0, "marketPrice": 100.0, "markets": ["IDX", names[-1]]}
+            cfg["simulation"]["markets"].append("IDX2")
+            allm.append("IDX2")
     spec = spec_strategy(offs=[-2, -1, 0, 1, 2], own_cancel=False, n_mi=2, market_orders=False)
     cfg["A0"] = {"class": "VScriptedAgent", "numAgents": draw(st.integers(2, 4)), "markets": allm, "assetVolume": 10, "cashAmount": 1000,
                  "scripts": draw(st.lists(program_strategy(spec, max_actions=6), min_size=1, max_size=3))}
